@@ -671,6 +671,17 @@ class Parser:
 
         return self._FSTRING_ESCAPE.sub(decode, text)
 
+    _CONTINUATIONS_ONLY = re.compile(r"(?:\\\r?\n)+\Z")
+
+    def _trim_after_doubled_brace(self, text: str, node: ast.Constant) -> None:
+        """CPython cuts literal text after every doubled brace; a rest made of backslash-newlines only is
+        an empty piece of its own there and does not count towards the span of the text before it."""
+        cut = max(text.rfind("{{"), text.rfind("}}")) + 2
+        if cut >= 2 and self._CONTINUATIONS_ONLY.match(text, cut):
+            head = text[:cut]
+            node.end_lineno = node.lineno + head.count("\n")
+            node.end_col_offset = len(head) - (head.rfind("\n") + 1) + (0 if "\n" in head else node.col_offset)
+
     def _fstring_values(
         self, parts: list[ast.FormattedValue | ast.Constant], raw: bool, in_spec: bool
     ) -> list[ast.FormattedValue | ast.Constant]:
@@ -684,6 +695,8 @@ class Parser:
             new: ast.FormattedValue | ast.Constant
             if isinstance(part, ast.Constant):
                 new = ast.Constant(value=self._fstring_text(part, raw, in_spec), **locs)
+                if not raw and not in_spec:
+                    self._trim_after_doubled_brace(part.value, new)
             elif part.format_spec is not None:
                 spec = cast(ast.JoinedStr, part.format_spec)
                 spec_locs = {k: getattr(spec, k) for k in ("lineno", "col_offset", "end_lineno", "end_col_offset")}
@@ -702,6 +715,8 @@ class Parser:
                     **{k: getattr(debug_text, k) for k in ("lineno", "col_offset", "end_lineno", "end_col_offset")},
                 )
             for item in (debug_text, new) if debug_text is not None else (new,):
+                if isinstance(item, ast.Constant) and item.value == "":
+                    continue  # text that is empty once decoded (a lone backslash-newline) is no piece at all
                 if values and isinstance(values[-1], ast.Constant) and isinstance(item, ast.Constant):
                     last = values[-1]
                     values[-1] = ast.Constant(
